@@ -1,6 +1,9 @@
 import Mathlib.Analysis.SpecialFunctions.Log.Basic
 import HpoModel.Num
-/-! The proof instance of the numeric interface: exact real arithmetic with checked division. -/
+/-!
+The proof instance of the numeric interface: `ℝ` with `Real.log` / `Real.exp`, checked division.
+(The execution instances `Float32` / `Float` live in `HpoModel/Num.lean`.)
+-/
 namespace Hpo
 
 noncomputable instance instNumReal : Num ℝ where
@@ -15,4 +18,23 @@ noncomputable instance instNumReal : Num ℝ where
   isZero := fun x => decide (x = 0)
   lt := fun a b => decide (a < b)
 
+namespace NumReal
+
+@[simp] theorem ofNat_eq (n : Nat) : (Num.ofNat n : ℝ) = (n : ℝ) := rfl
+@[simp] theorem add_eq (a b : ℝ) : Num.add a b = a + b := rfl
+@[simp] theorem sub_eq (a b : ℝ) : Num.sub a b = a - b := rfl
+@[simp] theorem mul_eq (a b : ℝ) : Num.mul a b = a * b := rfl
+@[simp] theorem neg_eq (a : ℝ) : Num.neg a = -a := rfl
+@[simp] theorem log_eq (a : ℝ) : Num.log a = Real.log a := rfl
+@[simp] theorem exp_eq (a : ℝ) : Num.exp a = Real.exp a := rfl
+@[simp] theorem isZero_eq (a : ℝ) : Num.isZero a = decide (a = 0) := rfl
+@[simp] theorem lt_eq (a b : ℝ) : Num.lt a b = decide (a < b) := rfl
+theorem div?_eq (a b : ℝ) : Num.div? a b = if b = 0 then none else some (a / b) := rfl
+
+theorem div?_of_ne (a : ℝ) {b : ℝ} (h : b ≠ 0) : Num.div? a b = some (a / b) := by
+  simp [div?_eq, h]
+
+theorem div?_zero (a : ℝ) : Num.div? a (0 : ℝ) = none := by simp [div?_eq]
+
+end NumReal
 end Hpo
